@@ -30,8 +30,8 @@ def select(cases, tier, seed):
     keep = []
     for c in cases:
         k = c["k"]
-        if k in ("multi", "skip"):
-            continue            # C06 / C07
+        if k in ("multi", "skip", "value"):
+            continue            # C06 / C07 / C02
         if k == "enum_item":
             if rng.random() < (1.0 if tier == "thorough" else 0.08):
                 keep.append(c)
